@@ -473,8 +473,19 @@ def check_optional_chars(idx: Index, rep: Report) -> None:
                     r.ok(inst, f"{LEXER}:{c.lineno} guarded by _is_in_bounds({need})")
                 else:
                     r.fail(inst, Finding("C07.R4", f.fq, f"unbounded-lookahead:{off}", f"`{unparse(user)[:70]}` uses the character at {off} as a string without `_is_in_bounds({need})`: at end of input the lookup is None and `None in <str>` raises TypeError", f"{LEXER}:{c.lineno}"))
-    if n < 3:
-        raise AnalysisError("expected at least 3 Input.at lookups in the MLIR lexer")
+    # a slice of the buffer is '' past the end of the input, and `'' in <str>` is True
+    for f in raw_funcs(mi):
+        for cmp_ in walk_local(f.node):
+            if isinstance(cmp_, ast.Compare) and len(cmp_.ops) == 1 and isinstance(cmp_.ops[0], (ast.In, ast.NotIn)) and isinstance(cmp_.left, ast.Subscript) and isinstance(cmp_.left.slice, ast.Slice) and re.fullmatch(r"(\w+\.)*content|content", unparse(cmp_.left.value)) and not isinstance(cmp_.comparators[0], (ast.List, ast.Tuple, ast.Set, ast.Dict)):
+                n += 1
+                inst = f"{f.fq}:slice@{cmp_.lineno}"
+                facts = text_facts(f.node, cmp_)
+                if any(p_ and re.fullmatch(r"self\._is_in_bounds\((\d*)\)", t) for t, p_ in facts):
+                    r.ok(inst, f"{LEXER}:{cmp_.lineno} slice membership under a bounds guard")
+                else:
+                    r.fail(inst, Finding("C07.R4", f.fq, f"empty-slice-member:{unparse(cmp_.left.slice)}", f"`{unparse(cmp_)[:70]}`: past the end of the input the slice is '' and `'' in <str>` is True for every string, so the test succeeds with no character there (input ending in `0x` is lexed as a hexadecimal literal without digits and int('0x', 16) raises ValueError)", f"{LEXER}:{cmp_.lineno}"))
+    if n < 2:
+        raise AnalysisError("expected at least 2 look-ahead reads of the input in the MLIR lexer")
 
 
 def check_tuple_index(idx: Index, rep: Report) -> None:
@@ -574,6 +585,128 @@ def check_tuple_index(idx: Index, rep: Report) -> None:
     if n_sub < 2:
         raise AnalysisError(f"{mi.relpath}: only {n_sub} tuple-element accesses of SSA value tuples found (expected resolve_operand, parse_optional_operand, _register_ssa_definition)")
 
+BUFFER = re.compile(r"^(content|self\.content|(\w+\.)*input\.content)$")
+LENGTH = r"(?:length|self\.len|(?:\w+\.)*input\.len|len\((?:content|self\.content|(?:\w+\.)*input\.content)\))"
+
+
+def check_raw_indexing(idx: Index, rep: Report) -> None:
+    """Direct indexing of the input buffer `content[i]` (the raw scanners bypass Input.at): on every path from the last
+    assignment of the index to the subscript an edge establishes `i < <length>`; otherwise the index can equal the
+    length at end of input and IndexError escapes instead of a diagnostic."""
+    from ..astutil import conjuncts
+
+    r = rep.rule("C07.R6", "the input buffer is indexed directly (`content[i]`) only where `i < length` was established after the last assignment of i", floor=3)
+    n = 0
+    for rel in PARSER_MODULES:
+        for f in raw_funcs(idx.module(rel)):
+            subs = [x for x in walk_local(f.node) if isinstance(x, ast.Subscript) and isinstance(x.ctx, ast.Load) and not isinstance(x.slice, ast.Slice) and BUFFER.match(unparse(x.value)) and not isinstance(x.slice, ast.Constant)]
+            if not subs:
+                continue
+            cfg = CFG(f.node)
+            # local alias of the buffer: content = <...>.input.content is matched by name `content`
+            for x in subs:
+                n += 1
+                it = unparse(x.slice)
+                names = {y.id for y in ast.walk(x.slice) if isinstance(y, ast.Name)}
+                defs = {cfg.node_of(s_) for s_ in walk_local(f.node) if isinstance(s_, (ast.Assign, ast.AugAssign, ast.AnnAssign)) and any(isinstance(t_, ast.Name) and t_.id in names for t_ in ast.walk(s_.targets[0] if isinstance(s_, ast.Assign) else s_.target))}
+                pat = re.compile(rf"^{re.escape(it)} < {LENGTH}$|^{LENGTH} > {re.escape(it)}$")
+                npat = re.compile(rf"^{re.escape(it)} >= {LENGTH}$|^{LENGTH} <= {re.escape(it)}$")
+
+                def est(a_: int, b_: int, lab) -> bool:
+                    e_ = cfg.nodes[a_].ast
+                    if e_ is None or lab not in ("T", "F") or not isinstance(e_, ast.expr):
+                        return False
+                    for atom, truth in conjuncts(e_, lab == "T"):
+                        t_ = unparse(atom)
+                        if (truth and pat.match(t_)) or ((not truth) and npat.match(t_)):
+                            return True
+                    return False
+
+                # expression-level guard in the same boolean expression: `i < length and content[i] == ...`
+                from ..astutil import guard_facts as _gf
+
+                def same_expr(t_: ast.AST) -> bool:
+                    """t_ and the subscript sit in one expression (short-circuit guard), with no statement between"""
+                    pm_ = parent_map(f.node)
+                    a_ = x
+                    while id(a_) in pm_ and not isinstance(pm_[id(a_)], ast.stmt):
+                        a_ = pm_[id(a_)]
+                    return any(y is t_ for y in ast.walk(a_))
+
+                if any(((pol and pat.match(unparse(t_))) or ((not pol) and npat.match(unparse(t_)))) and same_expr(t_) for t_, pol in _gf(f.node, x)):
+                    un = cfg.node_of(x)
+                    # ... provided i is not reassigned between that test and the subscript (same expression / statement)
+                    r.ok(f"{f.fq}:{unparse(x)}@{x.lineno}", None)
+                    continue
+                un = cfg.node_of(x)
+                starts = list(defs) + [cfg.entry]
+                bad = None
+                for d_ in starts:
+                    others = defs - {d_}
+                    if d_ == un:
+                        continue
+                    pth = cfg.path_avoiding(d_, un, lambda nd: nd.id in others, follow_exc=False, edge_ok=lambda a_, b_, lab: not est(a_, b_, lab))
+                    if pth is not None:
+                        bad = (d_, pth)
+                        break
+                inst = f"{f.fq}:{unparse(x)}@{x.lineno}"
+                if bad is None:
+                    r.ok(inst, f"{rel}:{x.lineno} `{it} < length` established after the last assignment of the index")
+                else:
+                    r.fail(inst, Finding("C07.R6", f.fq, f"unbounded-index:{unparse(x)}", f"`{unparse(x)}` (line {x.lineno}) is reached from `{cfg.nodes[bad[0]].text()[:50]}` without `{it} < length` being tested in between: at end of input the index equals the length and IndexError escapes instead of a ParseError", f"{rel}:{x.lineno}"))
+    if n < 3:
+        raise AnalysisError(f"only {n} direct indexings of the input buffer found")
+
+
+def check_find_sentinel(idx: Index, rep: Report) -> None:
+    """`s.find(sub, start)` answers -1 when there is no occurrence; using that value as a position moves the cursor
+    backwards (to 0 after `+ 1`), which re-lexes the input forever.  The result must be compared with -1 / 0 first."""
+    r = rep.rule("C07.R7", "the result of str.find on the input is tested against -1 before it is used as a position", floor=2)
+    n = 0
+    for rel in PARSER_MODULES:
+        for f in raw_funcs(idx.module(rel)):
+            finds = [c for c in calls_in(f.node) if call_attr(c) == "find" and isinstance(c.func, ast.Attribute)]
+            if not finds:
+                continue
+            pm = parent_map(f.node)
+            cfg = CFG(f.node)
+            for c in finds:
+                n += 1
+                inst = f"{f.fq}:find@{c.lineno}"
+                par = pm.get(id(c))
+                SENT = lambda cmp_: isinstance(cmp_, ast.Compare) and len(cmp_.ops) == 1 and any(isinstance(k_, ast.Constant) and k_.value in (-1, 0) or (isinstance(k_, ast.UnaryOp) and isinstance(k_.op, ast.USub)) for k_ in [cmp_.left] + cmp_.comparators)
+                # (x := s.find(...)) > -1   /   s.find(...) == -1
+                if isinstance(par, ast.NamedExpr):
+                    par = pm.get(id(par))
+                if SENT(par):
+                    r.ok(inst, f"{rel}:{c.lineno} compared with the sentinel at once")
+                    continue
+                if isinstance(par, (ast.Assign, ast.AnnAssign)) and isinstance((par.targets[0] if isinstance(par, ast.Assign) else par.target), ast.Name):
+                    nm = (par.targets[0] if isinstance(par, ast.Assign) else par.target).id
+                    dn = cfg.node_of(par)
+                    tests = {cfg.node_of(t_) for t_ in walk_local(f.node) if SENT(t_) and any(isinstance(y, ast.Name) and y.id == nm for y in ast.walk(t_))}
+                    uses = [u for u in walk_local(f.node) if isinstance(u, ast.Name) and u.id == nm and isinstance(u.ctx, ast.Load) and not any(SENT(a_) for a_ in _ancestors(pm, u))]
+                    from ..astutil import guard_facts as _gf2
+
+                    uses = [u for u in uses if not any(SENT(t_) and any(isinstance(y, ast.Name) and y.id == nm for y in ast.walk(t_)) for t_, _ in _gf2(f.node, u))]
+                    bad = [u for u in uses if cfg.node_of(u) != dn and cfg.path_avoiding(dn, cfg.node_of(u), lambda nd: nd.id in tests, follow_exc=False) is not None]
+                    if bad:
+                        r.fail(inst, Finding("C07.R7", f.fq, f"find-sentinel-unchecked:{nm}", f"`{unparse(par)}` may be -1 (no occurrence) and `{nm}` is used at line {bad[0].lineno} without a test against -1", f"{rel}:{bad[0].lineno}"))
+                    else:
+                        r.ok(inst, f"{rel}:{c.lineno} `{nm}` tested against -1 before use")
+                    continue
+                # used directly inside an expression (arithmetic, assignment to a position)
+                r.fail(inst, Finding("C07.R7", f.fq, "find-sentinel-unchecked:expr", f"`{unparse(par)[:80]}` uses the result of find directly: when there is no occurrence (input ends inside a `//` comment without a newline) it is -1, so the position becomes 0 and the lexer starts over from the beginning of the input - the parser never terminates", f"{rel}:{c.lineno}"))
+    if n < 2:
+        raise AnalysisError(f"only {n} str.find calls found in the lexer / parser modules")
+
+
+def _ancestors(pm, n):
+    while id(n) in pm:
+        n = pm[id(n)]
+        yield n
+
+
 def check(idx: Index, rep: Report, tier: str) -> str:
     rep.run(check_redos, idx, rep, tier)
     rep.run(check_unicode_predicates, idx, rep)
@@ -583,6 +716,8 @@ def check(idx: Index, rep: Report, tier: str) -> str:
     rep.run(check_external_raisers, idx, rep)
     rep.run(check_optional_chars, idx, rep)
     rep.run(check_tuple_index, idx, rep)
+    rep.run(check_raw_indexing, idx, rep)
+    rep.run(check_find_sentinel, idx, rep)
     return (
         "Regular-language ambiguity analysis of every regex of the lexer/parser modules (ReDoS), Unicode-width check of "
         "the lexer's digit dispatch, and a guard / sibling-agreement classification of every raise, assert and partial "
